@@ -6,6 +6,7 @@ import (
 	"go/token"
 	"go/types"
 	"math/bits"
+	"sort"
 	"strconv"
 	"strings"
 	"unicode"
@@ -75,10 +76,17 @@ func (c *Ctx) rpfCall(fd *ast.FuncDecl, p *packages.Package, args []*Val, hooks 
 		r.stHook = hooks.stHook
 		r.multiHook = hooks.multiHook
 		r.unroll = hooks.unroll
+		if r.unroll == 0 {
+			r.unroll = 4096 // plain loops over scalar state are unrolled by default; the step budget bounds the fold
+		}
 		r.effectCalls = hooks.effectCalls
 		r.assertHook = hooks.assertHook
 		r.maxSteps = hooks.maxSteps
 	}
+	if r.unroll == 0 {
+		r.unroll = 4096
+	}
+	r.effectCalls = true // statement-level calls of module functions are folded for their effect on fold-local storage
 	defer func() {
 		if x := recover(); x != nil {
 			if re, ok := x.(*rpfErr); ok {
@@ -109,7 +117,11 @@ func (c *Ctx) rpfCall(fd *ast.FuncDecl, p *packages.Package, args []*Val, hooks 
 						r.env[p.TypesInfo.Defs[n]] = v
 					}
 				}
-				_ = n
+				// a receiver the caller did not model: an opaque object (its fields are unknown; calls on it are
+				// folded with the same object, so helper methods extracted from a method still fold)
+				if _, bound := r.env[p.TypesInfo.Defs[n]]; !bound && n.Name != "_" {
+					r.env[p.TypesInfo.Defs[n]] = &Val{K: VStruct, Ptr: true, Fields: map[string]*Val{}}
+				}
 			}
 		}
 	}
@@ -185,6 +197,15 @@ func (c *Ctx) rpfExpr(p *packages.Package, e ast.Expr, env map[types.Object]*Val
 
 func zeroOf(t types.Type) *Val {
 	switch u := t.Underlying().(type) {
+	case *types.Array:
+		// the zero array: storage of its own, every element zero
+		if u.Len() <= 4096 {
+			v := &Val{K: VList, T: t, Local: true}
+			for i := int64(0); i < u.Len(); i++ {
+				v.L = append(v.L, zeroOf(u.Elem()))
+			}
+			return v
+		}
 	case *types.Basic:
 		if u.Info()&types.IsBoolean != 0 {
 			return vbool(false)
@@ -269,8 +290,8 @@ func (r *rpf) stmt(s ast.Stmt) *rpfReturn {
 	case *ast.DeclStmt:
 		gd, ok := x.Decl.(*ast.GenDecl)
 		if !ok || gd.Tok != token.VAR {
-			if ok && gd.Tok == token.CONST {
-				return nil
+			if ok && (gd.Tok == token.CONST || gd.Tok == token.TYPE) {
+				return nil // constants are folded by the type checker; a local type declares no value
 			}
 			rpfFail("%s: unsupported declaration", r.c.pos(x.Pos()))
 		}
@@ -334,6 +355,31 @@ func (r *rpf) stmt(s ast.Stmt) *rpfReturn {
 									r.assign(x.Lhs[0], zeroOf(info.TypeOf(ix)), x.Tok == token.DEFINE)
 									r.assign(x.Lhs[1], vbool(false), x.Tok == token.DEFINE)
 								}
+								return nil
+							}
+						}
+					}
+				}
+			}
+			// v, ok := m[k] on a map literal
+			if len(x.Rhs) == 1 && len(x.Lhs) == 2 {
+				if ix, ok := ast.Unparen(x.Rhs[0]).(*ast.IndexExpr); ok {
+					if _, isMap := info.TypeOf(ix.X).Underlying().(*types.Map); isMap {
+						if m := r.expr(ix.X); m.K == VList && m.MapKeys != nil {
+							k := r.expr(ix.Index)
+							if k.K == VInt || k.K == VStr {
+								for i, mk := range m.MapKeys {
+									if mk.K != k.K {
+										rpfFail("%s: map literal with keys outside the pure fragment", r.c.pos(x.Pos()))
+									}
+									if (k.K == VInt && mk.I == k.I) || (k.K == VStr && mk.S == k.S) {
+										r.assign(x.Lhs[0], m.L[i], x.Tok == token.DEFINE)
+										r.assign(x.Lhs[1], vbool(true), x.Tok == token.DEFINE)
+										return nil
+									}
+								}
+								r.assign(x.Lhs[0], zeroOf(info.TypeOf(ix)), x.Tok == token.DEFINE)
+								r.assign(x.Lhs[1], vbool(false), x.Tok == token.DEFINE)
 								return nil
 							}
 						}
@@ -567,6 +613,32 @@ func (r *rpf) stmt(s ast.Stmt) *rpfReturn {
 				}
 			}
 		}
+		if mt, isMap := info.TypeOf(x.X).Underlying().(*types.Map); isMap && ((lst.K == VStruct && lst.Fields != nil) || (lst.K == VList && lst.MapKeys != nil)) {
+			// range over a map: Go leaves the order open; the fold visits the entries in key order, so a result that
+			// depends on the order is decided for one order only
+			keys, vals := mapEntries(lst, mt)
+			if keys == nil && len(vals) != 0 {
+				rpfFail("%s: range over a map with keys outside the pure fragment", r.c.pos(x.Pos()))
+			}
+			for i := range keys {
+				if x.Key != nil {
+					r.assign(x.Key, keys[i], x.Tok == token.DEFINE)
+				}
+				if x.Value != nil {
+					r.assign(x.Value, vals[i], x.Tok == token.DEFINE)
+				}
+				r.inTableLoop++
+				ret, brk := r.loopIter(x.Body.List)
+				r.inTableLoop--
+				if ret != nil {
+					return ret
+				}
+				if brk {
+					break
+				}
+			}
+			return nil
+		}
 		if lst.K != VList || lst.MapKeys != nil {
 			rpfFail("%s: range over a non-literal value", r.c.pos(x.Pos()))
 		}
@@ -696,8 +768,10 @@ func (r *rpf) stmt(s ast.Stmt) *rpfReturn {
 					src = bs
 				}
 				if dst.K == VList && src.K == VList && dst.Local {
-					for i := 0; i < len(dst.L) && i < len(src.L); i++ {
-						dst.L[i] = src.L[i]
+					// as Go's copy: correct also when the two slices overlap (the source is read first)
+					tmp := append([]*Val{}, src.L...)
+					for i := 0; i < len(dst.L) && i < len(tmp); i++ {
+						dst.L[i] = tmp[i]
 					}
 					return nil
 				}
@@ -762,6 +836,18 @@ func (r *rpf) assign(l ast.Expr, v *Val, define bool) {
 		}
 	}
 	if ix, isIx := l.(*ast.IndexExpr); isIx {
+		if xt := r.p.TypesInfo.TypeOf(ix.X); xt != nil {
+			if _, isMap := xt.Underlying().(*types.Map); isMap {
+				if base, err := r.tryExpr(ix.X); err == nil && base.K == VStruct && base.Local && base.Fields != nil {
+					ks, ok := mapKeyString(r.expr(ix.Index))
+					if !ok {
+						rpfFail("%s: map key outside the pure fragment", r.c.pos(l.Pos()))
+					}
+					base.Fields[ks] = v
+					return
+				}
+			}
+		}
 		// element of a list created inside this fold by make(): local scratch storage (also through a field of a
 		// struct value created inside the fold: result[j].codewords[i] = ...)
 		if _, isId := ix.X.(*ast.Ident); !isId {
@@ -970,6 +1056,11 @@ func (r *rpf) expr(e ast.Expr) *Val {
 		}
 		if obj != nil && obj.Pkg() != nil && obj.Parent() == obj.Pkg().Scope() {
 			v := r.c.eval(r.p, e)
+			if v.K == VCall && v.Fn == nil {
+				if iv := r.pkgVarByFold(obj); iv != nil {
+					return iv
+				}
+			}
 			if v.K != VUnknown {
 				return v
 			}
@@ -1033,16 +1124,30 @@ func (r *rpf) expr(e ast.Expr) *Val {
 			}
 			return vint(int64(base.S[idx.I]))
 		}
+		if base.K == VList && base.MapKeys != nil && idx.K == VStr {
+			for i, k := range base.MapKeys {
+				if k.K != VStr {
+					rpfFail("%s: map literal with keys outside the pure fragment", r.c.pos(x.Pos()))
+				}
+				if k.S == idx.S {
+					return base.L[i]
+				}
+			}
+			return zeroOf(info.TypeOf(x))
+		}
 		if base.K != VList || idx.K != VInt {
 			rpfFail("%s: index outside the pure fragment", r.c.pos(x.Pos()))
 		}
 		if base.MapKeys != nil {
 			for i, k := range base.MapKeys {
-				if k.K == VInt && k.I == idx.I {
+				if k.K != VInt {
+					rpfFail("%s: map literal with keys outside the pure fragment", r.c.pos(x.Pos()))
+				}
+				if k.I == idx.I {
 					return base.L[i]
 				}
 			}
-			rpfFail("%s: map key %d absent", r.c.pos(x.Pos()), idx.I)
+			return zeroOf(info.TypeOf(x)) // an absent key reads as the zero value
 		}
 		if idx.I < 0 || idx.I >= int64(len(base.L)) {
 			rpfFail("%s: index %d out of range (len %d)", r.c.pos(x.Pos()), idx.I, len(base.L))
@@ -1076,11 +1181,62 @@ func (r *rpf) expr(e ast.Expr) *Val {
 			return v
 		case *types.Slice, *types.Array:
 			v := &Val{K: VList, T: t, Pos: x.Pos(), Local: true} // storage created by this very evaluation
+			keyed := false
 			for _, el := range x.Elts {
 				if _, ok := el.(*ast.KeyValueExpr); ok {
-					rpfFail("%s: keyed list literal", r.c.pos(x.Pos()))
+					keyed = true
 				}
-				v.L = append(v.L, r.expr(el))
+			}
+			if !keyed {
+				for _, el := range x.Elts {
+					v.L = append(v.L, r.expr(el))
+				}
+				// an array longer than its literal: the rest is zero
+				if at, isArr := ut.(*types.Array); isArr && int64(len(v.L)) < at.Len() && at.Len() <= 4096 {
+					for int64(len(v.L)) < at.Len() {
+						v.L = append(v.L, zeroOf(at.Elem()))
+					}
+				}
+				return v
+			}
+			// keyed elements (`'L': x`, `3: y`, unkeyed ones continue from the last index): constant keys only
+			var elemT types.Type
+			n := int64(-1)
+			switch tt := ut.(type) {
+			case *types.Array:
+				elemT, n = tt.Elem(), tt.Len()
+			case *types.Slice:
+				elemT = tt.Elem()
+			}
+			sparse := map[int64]*Val{}
+			idx, max := int64(0), int64(-1)
+			for _, el := range x.Elts {
+				val := el
+				if kv, ok := el.(*ast.KeyValueExpr); ok {
+					k := r.expr(kv.Key)
+					if k.K != VInt || k.I < 0 || k.I > 4096 {
+						rpfFail("%s: list literal with a key that is not a small constant", r.c.pos(x.Pos()))
+					}
+					idx, val = k.I, kv.Value
+				}
+				sparse[idx] = r.expr(val)
+				if idx > max {
+					max = idx
+				}
+				idx++
+			}
+			if n < 0 {
+				n = max + 1
+			}
+			if n > 4096 || max >= n {
+				rpfFail("%s: list literal too large", r.c.pos(x.Pos()))
+			}
+			for i := int64(0); i < n; i++ {
+				if e, ok := sparse[i]; ok {
+					v.L = append(v.L, e)
+				} else {
+					v.L = append(v.L, zeroOf(elemT))
+				}
 			}
 			return v
 		}
@@ -1114,6 +1270,21 @@ func (r *rpf) expr(e ast.Expr) *Val {
 			}
 			hi = v.I
 		}
+		if base.K == VList && hi > n && hi <= base.Cap && base.Local {
+			// re-slicing a list made with spare capacity up to that capacity: the new elements are zero
+			var et types.Type
+			if st, ok := info.TypeOf(x.X).Underlying().(*types.Slice); ok {
+				et = st.Elem()
+			}
+			for int64(len(base.L)) < hi {
+				if et != nil {
+					base.L = append(base.L, zeroOf(et))
+				} else {
+					base.L = append(base.L, vint(0))
+				}
+			}
+			n = int64(len(base.L))
+		}
 		if lo < 0 || hi < lo || hi > n {
 			rpfFail("%s: slice bounds [%d:%d] out of range (len %d)", r.c.pos(x.Pos()), lo, hi, n)
 		}
@@ -1144,6 +1315,8 @@ func (r *rpf) expr(e ast.Expr) *Val {
 			}
 			rpfFail("%s: type assertion outside the pure fragment", r.c.pos(x.Pos()))
 		}
+	case *ast.FuncLit:
+		return &Val{K: VFuncLit, Expr: x, Pkg: r.p}
 	case *ast.UnaryExpr:
 		if x.Op == token.AND {
 			if _, ok := x.X.(*ast.CompositeLit); ok {
@@ -1154,6 +1327,11 @@ func (r *rpf) expr(e ast.Expr) *Val {
 		}
 		v := r.expr(x.X)
 		switch x.Op {
+		case token.AND:
+			// &x of a struct or list value: the value itself (values of the fold are shared by reference)
+			if v.K == VStruct || v.K == VList {
+				return v
+			}
 		case token.NOT:
 			if v.K == VBool {
 				return vbool(!v.B)
@@ -1260,6 +1438,28 @@ func (r *rpf) expr(e ast.Expr) *Val {
 			}
 		}
 		callee = r.dynCallee(x, callee)
+		// a call of a function literal held in a variable, a field or a table (one result)
+		if callee == nil || func() bool { _, isVar := callee.(*types.Var); return isVar }() {
+			if fv, err := r.tryExpr(x.Fun); err == nil && fv != nil && fv.K == VFuncLit {
+				if lit, isLit := fv.Expr.(*ast.FuncLit); isLit && fv.Pkg != nil {
+					var args []*Val
+					for _, a := range x.Args {
+						args = append(args, r.expr(a))
+					}
+					fd := &ast.FuncDecl{Name: ast.NewIdent("func literal"), Type: lit.Type, Body: lit.Body}
+					hooks := r.nestedHooks()
+					res, ferr := r.c.rpfCall(fd, fv.Pkg, args, hooks)
+					if ferr != nil {
+						panic(ferr)
+					}
+					r.takeGlobals(hooks)
+					if len(res) == 1 {
+						return res[0]
+					}
+					rpfFail("%s: function literal with %d results in expression context", r.c.pos(x.Pos()), len(res))
+				}
+			}
+		}
 		// pure functions of the standard library and the min / max builtins on folded integers
 		if v, ok := r.stdPure(x, callee); ok {
 			return v
@@ -1291,7 +1491,24 @@ func (r *rpf) expr(e ast.Expr) *Val {
 					out.L = append(out.L, v)
 				}
 			}
+			if base.K == VList && base.Cap >= int64(len(out.L)) {
+				out.Cap = base.Cap // appended within the capacity: the capacity stays
+			}
 			return out
+		}
+		if b, ok := callee.(*types.Builtin); ok && b.Name() == "make" && len(x.Args) >= 1 {
+			if _, isMap := info.TypeOf(x).Underlying().(*types.Map); isMap {
+				// a map made inside the fold: a struct of its entries, keyed by the folded key
+				return &Val{K: VStruct, T: info.TypeOf(x), Local: true, Fields: map[string]*Val{}}
+			}
+		}
+		if b, ok := callee.(*types.Builtin); ok && b.Name() == "delete" && len(x.Args) == 2 {
+			if m := r.expr(x.Args[0]); m.K == VStruct && m.Local && m.Fields != nil {
+				if ks, ok := mapKeyString(r.expr(x.Args[1])); ok {
+					delete(m.Fields, ks)
+					return &Val{K: VNil}
+				}
+			}
 		}
 		if b, ok := callee.(*types.Builtin); ok && b.Name() == "make" && len(x.Args) >= 2 {
 			if _, isSlice := info.TypeOf(x).Underlying().(*types.Slice); isSlice {
@@ -1300,6 +1517,11 @@ func (r *rpf) expr(e ast.Expr) *Val {
 					rpfFail("%s: make with a non-constant length", r.c.pos(x.Pos()))
 				}
 				out := &Val{K: VList, T: info.TypeOf(x), Local: true}
+				if len(x.Args) == 3 {
+					if cp := r.expr(x.Args[2]); cp.isInt() && cp.I >= n.I && cp.I <= 8192 {
+						out.Cap = cp.I
+					}
+				}
 				elem := info.TypeOf(x).Underlying().(*types.Slice).Elem()
 				st, isStruct := elem.Underlying().(*types.Struct)
 				for i := int64(0); i < n.I; i++ {
@@ -1321,6 +1543,14 @@ func (r *rpf) expr(e ast.Expr) *Val {
 				return out
 			}
 		}
+		if b, ok := callee.(*types.Builtin); ok && b.Name() == "cap" && len(x.Args) == 1 {
+			if v := r.expr(x.Args[0]); v.K == VList {
+				if v.Cap > int64(len(v.L)) {
+					return vint(v.Cap)
+				}
+				return vint(int64(len(v.L)))
+			}
+		}
 		if b, ok := callee.(*types.Builtin); ok && b.Name() == "len" && len(x.Args) == 1 {
 			v := r.expr(x.Args[0])
 			if v.K == VList {
@@ -1328,6 +1558,11 @@ func (r *rpf) expr(e ast.Expr) *Val {
 			}
 			if v.K == VStr {
 				return vint(int64(len(v.S)))
+			}
+			if t := info.TypeOf(x.Args[0]); t != nil && v.K == VStruct && v.Fields != nil {
+				if _, isMap := t.Underlying().(*types.Map); isMap {
+					return vint(int64(len(v.Fields)))
+				}
 			}
 			if v.K == VNil {
 				if t := info.TypeOf(x.Args[0]); t != nil {
@@ -1735,4 +1970,101 @@ func (r *rpf) stdPure(x *ast.CallExpr, callee types.Object) (*Val, bool) {
 		}
 	}
 	return nil, false
+}
+
+// mapKeyString gives the key under which a fold-local map holds the entry of a folded key.
+func mapKeyString(k *Val) (string, bool) {
+	switch k.K {
+	case VInt:
+		return fmt.Sprint(k.I), true
+	case VStr:
+		return k.S, true
+	}
+	return "", false
+}
+
+// mapEntries lists the entries of a modelled map in key order (nil keys: not representable).
+func mapEntries(m *Val, mt *types.Map) (keys, vals []*Val) {
+	if m.K == VList {
+		idx := make([]int, len(m.MapKeys))
+		for i := range idx {
+			idx[i] = i
+			if m.MapKeys[i].K != VInt && m.MapKeys[i].K != VStr {
+				return nil, m.L
+			}
+		}
+		sort.Slice(idx, func(a, b int) bool {
+			ka, kb := m.MapKeys[idx[a]], m.MapKeys[idx[b]]
+			if ka.K == VInt {
+				return ka.I < kb.I
+			}
+			return ka.S < kb.S
+		})
+		for _, i := range idx {
+			keys, vals = append(keys, m.MapKeys[i]), append(vals, m.L[i])
+		}
+		return
+	}
+	basic, _ := mt.Key().Underlying().(*types.Basic)
+	if basic == nil {
+		for _, v := range m.Fields {
+			vals = append(vals, v)
+		}
+		return nil, vals
+	}
+	var names []string
+	for k := range m.Fields {
+		names = append(names, k)
+	}
+	if basic.Info()&types.IsInteger != 0 {
+		sort.Slice(names, func(a, b int) bool {
+			x, _ := strconv.ParseInt(names[a], 10, 64)
+			y, _ := strconv.ParseInt(names[b], 10, 64)
+			return x < y
+		})
+		for _, n := range names {
+			x, _ := strconv.ParseInt(n, 10, 64)
+			keys, vals = append(keys, &Val{K: VInt, I: x, T: mt.Key()}), append(vals, m.Fields[n])
+		}
+		return
+	}
+	if basic.Info()&types.IsString != 0 {
+		sort.Strings(names)
+		for _, n := range names {
+			keys, vals = append(keys, &Val{K: VStr, S: n, T: mt.Key()}), append(vals, m.Fields[n])
+		}
+		return
+	}
+	for _, n := range names {
+		vals = append(vals, m.Fields[n])
+	}
+	return nil, vals
+}
+
+// pkgVarByFold folds the initialiser of a package variable that is an immediately invoked function literal
+// (a table built at start-up); the value is shared state, not storage of the fold.
+func (r *rpf) pkgVarByFold(obj types.Object) *Val {
+	if r.c.iifeVals == nil {
+		r.c.iifeVals = map[types.Object]*Val{}
+	}
+	if v, ok := r.c.iifeVals[obj]; ok {
+		return v
+	}
+	r.c.iifeVals[obj] = nil // (a cycle gives up)
+	init, ip := r.c.varInitOfObj(obj)
+	call, ok := ast.Unparen(init).(*ast.CallExpr)
+	if !ok || len(call.Args) != 0 || ip == nil {
+		return nil
+	}
+	if _, isLit := ast.Unparen(call.Fun).(*ast.FuncLit); !isLit {
+		return nil
+	}
+	sub := &rpf{c: r.c, p: ip, env: map[types.Object]*Val{}, unroll: 4096, effectCalls: true}
+	v, err := sub.tryExpr(init)
+	if err != nil || v == nil {
+		return nil
+	}
+	v.Local = false
+	r.c.iifeVals[obj] = v
+	return v
 }
